@@ -226,15 +226,7 @@ func (e *Engine) initStringModels() {
 	})
 }
 
-func codeToStr(b *Term) *Term {
-	if b.isConst() {
-		return mkStr(string([]byte{byte(b.n.Int64())}))
-	}
-	if b.op == "str.to_code" && b.args[0].op == "str.at" {
-		return b.args[0]
-	}
-	return mkApp("str.from_code", SStr, b)
-}
+func codeToStr(b *Term) *Term { return codeStr(b) }
 
 func isSpaceTerm(b *Term) *Term {
 	return tOr(tEq(b, mkInt64(' ')), tAnd(tCmp(">=", b, mkInt64(9)), tCmp("<=", b, mkInt64(13))))
@@ -363,6 +355,7 @@ func (ex *exec) intToDigits(x *Term) value {
 	for i := 0; i < n; i++ {
 		d := mkVar(fmt.Sprintf("dig!%d!%d!%d", len(ex.taken), ex.ndig, i), SInt)
 		ex.solver.Ref(d)
+		ex.aux = append(ex.aux, d)
 		lo := int64(0)
 		if i == 0 && n > 1 {
 			lo = 1
